@@ -691,7 +691,7 @@ def run_server(case, ctx):
         acc = 0.0
         if case.get("hammer"):
             time.sleep(0.0005 * case["hammer"])
-            while not stop.is_set() and len(responses) < 400:
+            while not stop.is_set() and len(responses) < 150:
                 get()
             return
         for off, burst in case["requests"]:
@@ -752,10 +752,15 @@ def run_server(case, ctx):
     nfinal = S_.steps_done
     inside = 0
     cont_done = False
+    seen = set()
     for body in responses:
         if body is None:
             ctx.cls("timeout")
             continue
+        if body in seen:            # identical bytes were already checked (requests between the same two steps)
+            ctx.cls("duplicate_response")
+            continue
+        seen.add(body)
         try:
             m = sa_format.stream_map(body)
         except sa_format.FormatError as e:
@@ -822,7 +827,7 @@ server_sync_case = st.fixed_dictionaries({
     "system": S.hierarchical_system(nmin=2, nmax=4, move_to_com=True),
     "cfg": S.integrator_config(["whfast", "mercurius", "saba", "eos"]).map(_unsafe),
     "dt_frac": st.sampled_from([0.05, 0.02]), "rand_seed": st.just(1),
-    "cloud": st.fixed_dictionaries({"n": st.integers(1000, 3000), "da": st.sampled_from([0.002, 0.001]),
+    "cloud": st.fixed_dictionaries({"n": st.integers(1000, 2500), "da": st.sampled_from([0.002, 0.001]),
                                     "dph": S.floats(0.05, 0.5)}),
     "nsteps": st.integers(2, 5), "eft": st.sampled_from([0, 1]), "usleep": st.sampled_from([0, 100]),
     "hammer": st.integers(0, 4), "requests": st.just([]),
@@ -924,7 +929,7 @@ def subs(tier):
             shards_thorough=8),
         Sub("server", run_server, strategy=server_case, quick=320, thorough=6000, shards_quick=8),
         Sub("server_fd", run_server_fd, strategy=server_fd_case, quick=64, thorough=1200, shards_quick=8),
-        Sub("server_sync", run_server, strategy=server_sync_case, quick=48, thorough=1000, shards_quick=8),
+        Sub("server_sync", run_server, strategy=server_sync_case, quick=40, thorough=1000, shards_quick=8),
     ]
     if build.has_avx512():
         out += [
